@@ -413,6 +413,12 @@ func (p *storeProp) Gen(r *Rand, tier string, idx int) any {
 		} else {
 			op = SOp{Op: pick(r, readers), Node: r.Intn(nn), Ref: randRef()}
 		}
+		if sp.Tasks == 1 && p.id == "C06" && op.Op == "push" && r.Chance(0.08) {
+			op.Cancel = true
+		}
+		if sp.Kind == "oci" && op.Op == "delete" && !g.Nodes[op.Node].IsManif && r.Chance(0.15) {
+			op.Var = 3
+		}
 		if sp.Tasks == 1 && sp.Kind == "oci" && sp.AutoSave && p.id == "C07" && op.Op == "push" && r.Chance(0.1) {
 			op.FailMut = r.Range(1, 6) // Push only: a Delete that fails halfway is allowed to leave a stored manifest unindexed
 		}
@@ -824,6 +830,13 @@ func (sr *storeRun) sequential() *Verdict {
 					// (What the disk holds may now differ from the live store: no more reopen comparisons.)
 					sr.faulted = true
 				}
+			}
+			if op.Cancel && got.Err == "cancelled" {
+				// the push gave up with its context: nothing may have changed
+				want, exp = sr.model.Clone(), got
+				sr.info.Probes["push_failed_with_its_context"]++
+			} else if op.Cancel {
+				sr.info.Probes["push_completed_although_its_context_ended"]++
 			}
 			useModel := sr.p.id == "C06" || sr.p.id == "C09"
 			if useModel && want.Ambiguous != "" {
@@ -1284,6 +1297,19 @@ func (sr *storeRun) reopenExternal() *Verdict {
 		idx.Manifests = kept
 		if idx.Manifests == nil {
 			idx.Manifests = []ocispec.Descriptor{}
+		}
+		if len(kept) >= 2 && len(sr.sp.Ops)%3 == 0 {
+			// the blob of the first listed manifest is lost (removed from outside): the others
+			// load all the same, and what they link to is answered exactly
+			first := kept[0].Digest
+			os.Remove(filepath.Join(ext, "blobs", first.Algorithm().String(), first.Encoded()))
+			reach = map[int]bool{}
+			for _, m := range kept {
+				if i := g.LookupDigest(m.Digest); i >= 0 {
+					walk(i)
+				}
+			}
+			sr.info.Probes["layout_opened_with_a_listed_blob_missing"]++
 		}
 		nb, _ := json.Marshal(idx)
 		os.WriteFile(filepath.Join(ext, "index.json"), nb, 0o644)
